@@ -8,6 +8,9 @@ fn bye_roundtrip<S: Src, const NS: usize, const L: usize, const B: usize>(s: &mu
     let k = s.upto(if NS > 0 { NS - 1 } else { 0 });
     let j = s.upto(if L > 0 { L - 1 } else { 0 });
     let mut buf = [0xA5u8; B];
+    let mut seen = (false, false, false);
+    // instances that are rejected by construction (32 sources, 256-byte reason)
+    let rejected = NS > 31 || (L >= 252 && c.reason.len > 255);
     match c.builder().write_into(&mut buf) {
         Ok(n) => {
             assert!(n + 4 <= B, "HARNESS: buffer array too small");
@@ -28,15 +31,20 @@ fn bye_roundtrip<S: Src, const NS: usize, const L: usize, const B: usize>(s: &mu
                     }
                 }
             }
-            vcover!(c.reason.len == 0 || L < 252 || c.padding > 0, "long reason with padding");
-            vcover!(L >= 252 || (c.reason.len > 0 && c.padding > 0 && c.reason.len % 4 != 3), "reason, fill and padding");
-            vcover!(L >= 252 || (c.reason.len == 0 && c.padding > 0), "padding without reason");
+            seen = (
+                c.reason.len == 0 || L < 252 || c.padding > 0,
+                L >= 252 || (c.reason.len > 0 && c.padding > 0 && c.reason.len % 4 != 3),
+                L >= 252 || (c.reason.len == 0 && c.padding > 0),
+            );
         }
         Err(e) => {
             assert!(!c.valid(), "builder rejected a legal BYE");
             assert!(!matches!(e, RtcpWriteError::OutputTooSmall(_)));
         }
     }
+    vcover!(rejected || seen.0, "long reason with padding");
+    vcover!(rejected || seen.1, "reason, fill and padding");
+    vcover!(rejected || seen.2, "padding without reason");
 }
 
 pub fn bye<S: Src, const NS: usize, const L: usize, const B: usize>(s: &mut S) {
